@@ -27,7 +27,7 @@ def extra_engines(prop):
 def main(argv):
     ap = argparse.ArgumentParser()
     ap.add_argument("prop", nargs="?")
-    ap.add_argument("--tier", default=os.environ.get("VERIF_TIER", "quick"), choices=["quick", "thorough"])
+    ap.add_argument("--tier", default=os.environ.get("VERIF_TIER", "quick"), choices=["quick", "thorough", "experimental"])
     ap.add_argument("--only", default=None)
     ap.add_argument("--jobs", type=int, default=int(os.environ.get("VERIF_JOBS", "0")))
     ap.add_argument("--replay", default=None)
@@ -76,6 +76,7 @@ def main(argv):
         if not ok:
             print(open(log, errors="replace").read()[-3000:])
     jobs = a.jobs or (6 if a.tier == "quick" else 4)
+    ev_tier = "quick" if a.tier == "quick" else "thorough"
     mem = float(os.environ.get("VERIF_MEM_GB", "9" if a.tier == "quick" else "14"))
     tmul = float(os.environ.get("VERIF_TIME_MUL", "1"))
     results = {}
@@ -198,7 +199,7 @@ def main(argv):
 
     wall = time.time() - t_start
     if not a.no_evidence and not a.only:
-        write_evidence(prop, a.tier, seed, results, extra_results, builds, violations, inconclusive, known_lines, wall)
+        write_evidence(prop, ev_tier, seed, results, extra_results, builds, violations, inconclusive, known_lines, wall)
     for ln in known_lines:
         print(ln)
     for h, why in inconclusive:
